@@ -5,6 +5,7 @@ import SamVerif.Model.TailStmt
 import SamVerif.Model.CpeProg
 import SamVerif.Model.VecRt
 import SamVerif.Model.DataSeg
+import SamVerif.Model.Launcher
 import Driver.Util
 /-! Line-protocol driver for property C01 (model side): protocols `layout`, `tailrec`, `cpe`.
 Each line carries, after `##`, the model-side description of the same input that the harness
@@ -590,6 +591,11 @@ def datasegLine (rest : String) : String :=
         s!"roundtrip={back == text.toList} bytes={bs.length} found={found.length}/{consts.length}"
   | [] => "bad-model-line"
 
+/-! ### launcher: names called by the launchers of the entry points -/
+def launcherLine (rest : String) : String :=
+  let entries : List Launcher.Mod := (words rest).map fun e => (e.splitOn ".").map String.toList
+  " ".intercalate ((Launcher.launchers entries).map fun (_, n) => String.ofList n)
+
 def step (_ : Unit) (line : String) : Unit × String :=
   let line := line.trimAscii.toString
   let (k, rest) := match line.splitOn " " with
@@ -603,6 +609,7 @@ def step (_ : Unit) (line : String) : Unit × String :=
        else if k == "cpeprog" then cpeprogLine rest
        else if k == "lirloop" then lirloopLine rest
        else if k == "dataseg" then datasegLine rest
+       else if k == "launcher" then launcherLine rest
        else if k == "vecrt" then vecrtRun VecRt.empty [] (words rest)
        else "bad-line")
 
